@@ -329,3 +329,97 @@ def gen_validity_codes():
            ",\n".join('  ("%s", %d)' % c for c in codes if c[0].startswith("IC_")) + "]\n"
     out += "\nend XV.Gen.ValidityCodes\n"
     return out
+
+
+# ---- C17 (builder) ----
+# ------------------------------------------------------------------ C17: lock sites and access markers
+import os
+import common
+
+def _compiled_sources():
+    """Source files (relative to src/xercesc) compiled into the library in THIS build configuration,
+    read from the build tree's build.ninja (so e.g. only the ICU transcoder of the configured transcoders)."""
+    bn = os.path.join(common.BUILD, "build.ninja")
+    try:
+        t = open(bn, encoding="latin-1").read()
+    except OSError as e:
+        raise TranslateError("cannot read %s: %s" % (bn, e))
+    rels = set(re.findall(r"^build src/CMakeFiles/xerces-c\.dir/xercesc/(\S+?\.cpp)\.o:", t, flags=re.M))
+    if len(rels) < 100:
+        raise TranslateError("build.ninja lists only %d library sources" % len(rels))
+    return sorted(rels)
+
+_FN_RE = re.compile(r"^(?:[A-Za-z_][^;{}()=]*?[\s\*&])?((?:\w+::)+~?\w+)\s*\(")
+
+def _norm_mutex(expr):
+    e = expr.strip()
+    e = re.sub(r"^&\s*", "", e)
+    e = re.sub(r"const_cast<[^>]*>\(this\)->", "", e)
+    e = re.sub(r"^this->", "", e)
+    return e.strip()
+
+def _split_args(s):
+    out, cur, depth, q = [], "", 0, False
+    for ch in s:
+        if ch == '"': q = not q
+        if not q:
+            if ch == "(": depth += 1
+            elif ch == ")": depth -= 1
+            elif ch == "," and depth == 0:
+                out.append(cur.strip()); cur = ""; continue
+        cur += ch
+    out.append(cur.strip())
+    return out
+
+def lock_sites_scan():
+    sites, marks = [], []
+    for rel in _compiled_sources():
+        text = src(rel)
+        if "XMLMutexLock" not in text and "XERCES_VERIF_" not in text:
+            continue
+        if rel.startswith("util/Mutexes"):
+            continue
+        fn, fn_line = "?", 0
+        for no, raw in enumerate(text.split("\n"), 1):
+            line = re.sub(r"//.*", "", raw)
+            m = _FN_RE.match(line)
+            if m and not line.lstrip().startswith(("return", "if", "else", "#")):
+                fn, fn_line = m.group(1), no
+            m = re.search(r"\bXMLMutexLock\s+\w+\s*\((.*)\)\s*;", line)
+            if m:
+                sites.append((rel, fn, fn_line, no, _norm_mutex(m.group(1)), m.group(1).strip()))
+            m = re.search(r"\bXERCES_VERIF_(ACCESS|INIT_BEGIN|INIT_END)\s*\((.*)\)\s*;", line)
+            if m:
+                a = _split_args(m.group(2))
+                kind = {"ACCESS": "access", "INIT_BEGIN": "initBegin", "INIT_END": "initEnd"}[m.group(1)]
+                if len(a) < 3 or not (a[0].startswith('"') and a[0].endswith('"')):
+                    raise TranslateError("%s:%d: cannot parse marker %r" % (rel, no, line.strip()))
+                rw = 1
+                if kind == "access":
+                    if len(a) != 4:
+                        raise TranslateError("%s:%d: XERCES_VERIF_ACCESS needs 4 arguments" % (rel, no))
+                    rw = c_int(a[3])
+                marks.append((rel, fn, fn_line, no, kind, a[0][1:-1], _norm_mutex(a[2]), rw))
+    return sites, marks
+
+@translate.register("LockSites")
+def gen_lock_sites():
+    sites, marks = lock_sites_scan()
+    if not sites:
+        raise TranslateError("no XMLMutexLock site found in the compiled sources")
+    if not marks:
+        raise TranslateError("no XERCES_VERIF_ACCESS marker found (hook H2 not applied to the sources?)")
+    def q(s): return '"' + s.replace("\\", "\\\\").replace('"', '\\"') + '"'
+    out = HEADER + "namespace XV.Gen.LockSites\n\n"
+    out += "structure LockSite where\n  file : String\n  func : String\n  fnLine : Nat\n  line : Nat\n  mutex : String\n  deriving Repr, DecidableEq\n\n"
+    out += ("structure Marker where\n  file : String\n  func : String\n  fnLine : Nat\n  line : Nat\n  kind : String\n"
+            "  resource : String\n  mutex : String\n  rw : Nat\n  deriving Repr, DecidableEq\n\n")
+    out += "/-- every `XMLMutexLock` construction in the sources compiled in this build configuration -/\n"
+    out += "def lockSites : List LockSite := [\n" + ",\n".join(
+        "  ⟨%s, %s, %d, %d, %s⟩" % (q(f), q(fn), fl, no, q(mx)) for f, fn, fl, no, mx, _ in sites) + "]\n\n"
+    out += "/-- every hook-H2 access / initialisation marker -/\n"
+    out += "def markers : List Marker := [\n" + ",\n".join(
+        "  ⟨%s, %s, %d, %d, %s, %s, %s, %d⟩" % (q(f), q(fn), fl, no, q(k), q(r), q(mx), rw)
+        for f, fn, fl, no, k, r, mx, rw in marks) + "]\n\n"
+    out += "end XV.Gen.LockSites\n"
+    return out
